@@ -577,7 +577,27 @@ fn random_list<R: Rng>(rng: &mut R, levels: &[Level], bids: bool) -> Value {
         let at = rng.random_range(0..=v.len());
         v.insert(at, json!({"p": p, "a": rng.random_range(0..10)}));
     }
-    v.shuffle(rng);
+    // the list as given: unsorted, in the side's natural order, or exactly reversed (repeated prices
+    // adjacent in the last two)
+    match rng.random_range(0..3) {
+        0 => v.shuffle(rng),
+        o => {
+            v.sort_by_key(|l| l["p"].as_i64().unwrap_or(0));
+            if (o == 1) == bids {
+                v.reverse();
+            }
+            // entries of one price keep a random relative order
+            let mut j = 0;
+            while j < v.len() {
+                let mut k = j;
+                while k < v.len() && v[k]["p"] == v[j]["p"] {
+                    k += 1;
+                }
+                v[j..k].shuffle(rng);
+                j = k;
+            }
+        }
+    }
     Value::Array(v)
 }
 
